@@ -4,9 +4,9 @@ import market_checks
 import runner_props
 
 PROP = "C06"
-LEAN_MODULES = ["PamsProps.C06", "PamsProps.C06R", "PamsProps.SimE2E", "PamsProps.SrcTick"]
-NAMESPACES = ["Pams.C06", "Pams.C06R", "Pams.C06", "Pams.C06"]
-DRIVERS = ["Market", "Runner", "Sim"]
+LEAN_MODULES = ["PamsProps.C06", "PamsProps.C06R", "PamsProps.SimE2E", "PamsProps.SrcTick", "PamsProps.SrcFill"]
+NAMESPACES = ["Pams.C06", "Pams.C06R", "Pams.C06", "Pams.C06", "Pams.C06"]
+DRIVERS = ["Market", "Runner", "Sim", "PyRun"]
 TRUSTED = [
     "series are modelled as current slot + list of past slots; Python's pre-allocated slots beyond `time` are unobservable through the getters (refusal is checked on every getter)",
     "fundamental-price history is covered by C12 (prefix kept)",
@@ -31,7 +31,11 @@ def merge(a, b):
 def run(ctx, model_available=True):
     a = market_checks.run_market_property(ctx, PROP, n_quick=200, model_available=model_available)
     b = runner_props.run_runner_property(ctx, PROP, n_quick=50, model_available=model_available)
-    return merge(a, b)
+    res = merge(a, b)
+    # (T2) the translated source of the market operations (clock step, storage growth, …) under the mini-Python
+    # semantics, against CPython
+    import py_checks
+    return py_checks.merge(res, ctx, ["marketop"], n_each=120, model_available=model_available)
 
 
 def search(ctx, res):
